@@ -324,6 +324,12 @@ def run_property(prop, tier, seed):
         print(f'CHECKER-ERROR {o.id}: {o.raw}')
     for r in out_of_reach:
         print(f'OUT-OF-REACH {r["function"]}: {r["reason"]}')
+    paths_report = eng.dead_under_contract.pop('$paths', {})
+    if os.environ.get('PYVC_DEAD'):
+        for t in paths_report.get('roots_without_a_normal_return', []):
+            print('NO-NORMAL-RETURN', t)
+        for t, ks in paths_report.get('allowed_exceptions_no_path_raises', {}).items():
+            print('ALLOWED-EXCEPTION-NEVER-RAISED', t, ks)
     inlined_dead = {}
     for q, fi in sorted(eng.inlined_functions.items()):
         if q in eng.dead_under_contract or q in R.contracts and q in roots:
@@ -408,6 +414,8 @@ def run_property(prop, tier, seed):
                 t: sorted(set.intersection(*[set(x) for x in v.values()])) for t, v in sorted(eng.dead_under_contract.items())
                 if v and set.intersection(*[set(x) for x in v.values()])},
             'statements_of_inlined_callees_no_feasible_path_reaches': inlined_dead,
+            'roots_without_a_normal_return': sorted(paths_report.get('roots_without_a_normal_return', [])),
+            'allowed_exceptions_no_path_raises': paths_report.get('allowed_exceptions_no_path_raises', {}),
             'racy_reads': sorted(f'{a}:{b}@{c}' for a, b, c in eng.racy_reads),
             'vacuity': {'covers': sum(1 for o in obls if o.kind == 'cover'),
                         'must_fail_twins': sum(1 for o in obls if o.kind == 'twin'),
